@@ -623,6 +623,63 @@ impl<RS: Read + Seek> Xlsx<RS> {
     { unimplemented!() }
 }
 
+// TRUSTED: ghost cell stream stands for the BIFF12 record reader of one sheet part (same model as XlsbCellsReader). `remaining()` is the finite sequence of cells the reader
+// will still deliver (a sheet part is a finite file and every next_cell call consumes input: this is what gives the loops a measure),
+// `terminal()` how the stream ends, `dims()` the parsed BrtWsDim record. next_cell itself (decoding of one cell record) is under
+// contract in unit xlsbrec, not here.
+#[verifier::external_body]
+pub struct XlsbCellsReader<'a> { _p: PhantomData<&'a u8> }
+impl<'a> XlsbCellsReader<'a> {
+    pub uninterp spec fn remaining(&self) -> Seq<Cell<DataRef<'a>>>;
+    pub uninterp spec fn terminal(&self) -> Option<XlsbError>;
+    pub uninterp spec fn dims(&self) -> Dimensions;
+    // TRUSTED: signature of src/xlsb/cells_reader.rs XlsbCellsReader::dimensions (returns the stored field)
+    #[verifier::external_body]
+    pub fn dimensions(&self) -> (d: Dimensions)
+        ensures d == self.dims(),
+    { unimplemented!() }
+    // TRUSTED: signature of src/xlsb/cells_reader.rs XlsbCellsReader::next_cell; pops the head of the ghost stream
+    #[verifier::external_body]
+    pub fn next_cell(&mut self) -> (r: Result<Option<Cell<DataRef<'a>>>, XlsbError>)
+        ensures
+            final(self).terminal() == old(self).terminal() && final(self).dims() == old(self).dims(),
+            match r {
+                Ok(Some(c)) => old(self).remaining().len() > 0 && c == old(self).remaining()[0]
+                    && final(self).remaining() == old(self).remaining().skip(1),
+                Ok(None) => old(self).remaining().len() == 0 && old(self).terminal() is None && final(self).remaining() == old(self).remaining(),
+                Err(e) => old(self).remaining().len() == 0 && old(self).terminal() == Some(e) && final(self).remaining() == old(self).remaining(),
+            },
+    { unimplemented!() }
+}
+
+impl<RS> Xlsb<RS> {
+    /// the option
+    pub closed spec fn hr(&self) -> HeaderRow { self.options.header_row }
+    /// everything but the option (frame of with_header_row)
+    pub closed spec fn rest(&self) -> (ZipArchive<RS>, Vec<String>, Vec<(String, String)>, Vec<String>, Vec<CellFormat>, bool, Metadata) {
+        (self.zip, self.extern_sheets, self.sheets, self.strings, self.formats, self.is_1904, self.metadata)
+    }
+    /// what `worksheet_cells_reader(name)` makes of the workbook (zip lookup + XML prologue of the sheet part): not modelled further
+    pub uninterp spec fn sheet_src<'a>(&self, name: Seq<char>) -> LazySrc<Cell<DataRef<'a>>, XlsbError>;
+    /// `name` is one of the sheets listed in workbook.bin
+    pub closed spec fn knows(&self, name: Seq<char>) -> bool { exists|i: int| 0 <= i < self.sheets@.len() && (#[trigger] self.sheets@[i]).0@ == name }
+}
+
+impl<RS: Read + Seek> Xlsb<RS> {
+    // TRUSTED: stand-in for src/xlsb/mod.rs Xlsb::worksheet_cells_reader (sheet path lookup in `self.sheets`, zip entry, records up to
+    // BrtBeginSheetData): the reader it returns is the ghost stream `sheet_src(name)`; an unknown name is WorksheetNotFound (first
+    // statement of the real function: `match self.sheets.iter().find(|&(n, _)| n == name) { .. None => return Err(XlsbError::WorksheetNotFound(name.into())) }`).
+    #[verifier::external_body]
+    pub fn worksheet_cells_reader<'a>(&'a mut self, name: &str) -> (r: Result<XlsbCellsReader<'a>, XlsbError>)
+        ensures
+            match r {
+                Ok(rd) => old(self).sheet_src(name@) == (LazySrc::Stream { cells: rd.remaining(), end: rd.terminal(), dims: rd.dims() }),
+                Err(e) => old(self).sheet_src(name@) == LazySrc::<Cell<DataRef<'a>>, XlsbError>::OpenErr(e),
+            },
+            !old(self).knows(name@) ==> r is Err && r->Err_0 is WorksheetNotFound,
+    { unimplemented!() }
+}
+
 // Stand-ins for the traits `Reader` / `ReaderRef` of src/lib.rs, restricted to the methods under contract here (signatures copied; the
 // other methods mention foreign types -- Cow, VbaProject, Metadata accessors -- and are not used by the verified code).
 pub trait Reader<RS>: Sized
@@ -685,26 +742,10 @@ proof fn lemma_u32_product(a: int, b: int)
         *final(r) == *final(self),
 //@@ end
     open spec fn inv(&self) -> bool { true }
-//@@ fn src/xlsx/mod.rs "Reader<RS> for Xlsx<RS>::worksheet_range" props=C07 entry ret=r
-//@@ sig
-    ensures
-        //# C07.range_is_converted_ref
-        exists|rr: Result<Range<DataRef<'static>>, XlsxError>|
-            #[trigger] lazy_result_ok(old(self).sheet_src(name@), old(self).naw(name@), old(self).hr(), rr) && converted_result(r, rr),
-//@@ closure 0
-    -> (res: Data) ensures res == to_data(v)
-//@@ before /Ok\(Range \{/
-        proof {
-            let iv = data_seq(&inner);   // (also tells rustc the type of `inner`, which the source leaves to the struct literal below)
-            assert(iv.len() == rge.inner@.len());
-            assert(forall|i: int| 0 <= i < iv.len() ==> iv[i] == to_data(rge.inner@[i]));
-            let d = Range { start: rge.start, end: rge.end, inner: inner };
-            assert(converted(d, rge));
-            let rr: Result<Range<DataRef<'static>>, XlsxError> = Ok(rge);
-            assert(lazy_result_ok(old(self).sheet_src(name@), old(self).naw(name@), old(self).hr(), rr));
-            assert(converted_result(Ok::<Range<Data>, XlsxError>(d), rr));
-        }
-//@@ end
+    // stand-in so that the reduced trait is implemented for every RS; the real text of worksheet_range is verified right below at the
+    // opaque instance RS := VerifRs (rule R-mono)
+    #[verifier::external_body]
+    fn worksheet_range(&mut self, name: &str) -> Result<Range<Data>, XlsxError> { unimplemented!() }
 //@@ endimpl
 
 //@@ impl src/xlsx/mod.rs "ReaderRef<RS> for Xlsx<RS>"
@@ -738,6 +779,7 @@ proof fn lemma_u32_product(a: int, b: int)
                     invariant
                         cell_reader.remaining().len() <= stream.len(),
                         cell_reader.remaining() == stream.skip(stream.len() - cell_reader.remaining().len()),
+                        //# C08,C01.lazy_filter_kept_so_far
                         cells@ == keep(stream.take(stream.len() - cell_reader.remaining().len()), 0),
                         old(self).sheet_src(name@) == (LazySrc::Stream { cells: stream, end: cell_reader.terminal(), dims: cell_reader.dims() }),
                         dflt::<DataRef<'a>>() == DataRef::<'a>::Empty,
@@ -757,6 +799,7 @@ proof fn lemma_u32_product(a: int, b: int)
                     invariant
                         cell_reader.remaining().len() <= stream.len(),
                         cell_reader.remaining() == stream.skip(stream.len() - cell_reader.remaining().len()),
+                        //# C08,C01.lazy_filter_kept_so_far
                         cells@ == keep(stream.take(stream.len() - cell_reader.remaining().len()), header_row_idx as int),
                         old(self).sheet_src(name@) == (LazySrc::Stream { cells: stream, end: cell_reader.terminal(), dims: cell_reader.dims() }),
                         dflt::<DataRef<'a>>() == DataRef::<'a>::Empty,
@@ -794,6 +837,166 @@ proof fn lemma_u32_product(a: int, b: int)
         }
 //@@ end
 //@@ endimpl
+
+// R-mono (documented mechanical rule, needed for `worksheet_range` of Xlsx / Xlsb only): Verus 0.2026.09.13 loses vstd's specification of
+// `Iterator::map(closure)` when the closure is created inside a function with type parameters (probed: the same chain verifies in a
+// non-generic fn, fails in `fn f<RS>`). The method text is therefore verified, verbatim, as a method of `Xlsx<VerifRs>` for an opaque
+// reader type VerifRs; the method never touches RS (it only calls worksheet_range_ref), so by parametricity the instance stands for all RS.
+pub struct VerifRs { _opaque: u8 }
+impl Xlsx<VerifRs> {
+//@@ fn src/xlsx/mod.rs "Reader<RS> for Xlsx<RS>::worksheet_range" props=C07 entry ret=r
+//@@ sig
+    ensures
+        //# C07.range_is_converted_ref
+        exists|rr: Result<Range<DataRef<'static>>, XlsxError>|
+            #[trigger] lazy_result_ok(old(self).sheet_src(name@), old(self).naw(name@), old(self).hr(), rr) && converted_result(r, rr),
+//@@ closure 0
+    -> (res: Data) ensures res == to_data(v)
+//@@ before /Ok\(Range \{/
+        proof {
+            let iv = data_seq(&inner);   // (also tells rustc the type of `inner`, which the source leaves to the struct literal below)
+            assert(iv.len() == rge.inner@.len());
+            assert(forall|i: int| 0 <= i < iv.len() ==> iv[i] == to_data(rge.inner@[i]));
+            let d = Range { start: rge.start, end: rge.end, inner: inner };
+            assert(converted(d, rge));
+            let rr: Result<Range<DataRef<'static>>, XlsxError> = Ok(rge);
+            assert(lazy_result_ok(old(self).sheet_src(name@), old(self).naw(name@), old(self).hr(), rr));
+            assert(converted_result(Ok::<Range<Data>, XlsxError>(d), rr));
+        }
+//@@ end
+}
+
+
+//@@ impl src/xlsb/mod.rs "Reader<RS> for Xlsb<RS>"
+//@@ item src/xlsb/mod.rs impl_type "Reader<RS> for Xlsb<RS>::type Error"
+//@@ fn src/xlsb/mod.rs "Reader<RS> for Xlsb<RS>::with_header_row" props=C07,C08 ret=r
+//@@ sig
+    ensures
+        //# C07,C08.with_header_row_sets_option
+        r.hr() == header_row,
+        //# C07,C08.with_header_row_frame
+        r.rest() == old(self).rest(),
+        //# C07,C08.with_header_row_returns_self
+        *final(r) == *final(self),
+//@@ end
+    open spec fn inv(&self) -> bool { true }
+    // stand-in so that the reduced trait is implemented for every RS; the real text of worksheet_range is verified right below at the
+    // opaque instance RS := VerifRs (rule R-mono)
+    #[verifier::external_body]
+    fn worksheet_range(&mut self, name: &str) -> Result<Range<Data>, XlsbError> { unimplemented!() }
+//@@ endimpl
+
+//@@ impl src/xlsb/mod.rs "ReaderRef<RS> for Xlsb<RS>"
+//@@ fn src/xlsb/mod.rs "ReaderRef<RS> for Xlsb<RS>::worksheet_range_ref" props=C08,C03,C07 entry ret=r
+//@@ sig
+    ensures
+        //# C07.lazy_unknown_sheet_is_error
+        !old(self).knows(name@) ==> r is Err,
+        //# C07.lazy_open_error_is_returned
+        ({ let src = old(self).sheet_src(name@); src is OpenErr ==> r is Err && r->Err_0 == src->OpenErr_0 }),
+        //# C06.lazy_read_error_is_returned
+        ({ let src = old(self).sheet_src(name@); src is Stream && src->end is Some ==> r is Err && r->Err_0 == src->end->Some_0 }),
+        //# C08,C03.lazy_filter
+        ({ let src = old(self).sheet_src(name@); src is Stream && src->end is None ==>
+            r is Ok && (rows_mono(src->cells) ==> sparse_of(r->Ok_0, lazy_cells(old(self).hr(), src->cells))) }),
+        //# C07.lazy_result_bundle
+        lazy_result_ok(old(self).sheet_src(name@), false, old(self).hr(), r),
+//@@ before /let len = /
+        let ghost stream = cell_reader.remaining();
+        proof { lemma_lawful_cells(); }
+//@@ before /cells\.reserve\(/
+            proof {
+                //# C06.reserve_capped
+                assert(len < 100_000);
+            }
+//@@ before /match header_row \{/
+        proof { assert(stream.take(0) =~= Seq::<Cell<DataRef<'a>>>::empty()); }
+//@@ loop 0
+                    invariant
+                        cell_reader.remaining().len() <= stream.len(),
+                        cell_reader.remaining() == stream.skip(stream.len() - cell_reader.remaining().len()),
+                        //# C08,C03.lazy_filter_kept_so_far
+                        cells@ == keep(stream.take(stream.len() - cell_reader.remaining().len()), 0),
+                        old(self).sheet_src(name@) == (LazySrc::Stream { cells: stream, end: cell_reader.terminal(), dims: cell_reader.dims() }),
+                        dflt::<DataRef<'a>>() == DataRef::<'a>::Empty,
+                    ensures
+                        cell_reader.remaining().len() == 0 && cell_reader.terminal() is None,
+                    decreases cell_reader.remaining().len(),
+//@@ before /match cell_reader/#0of2
+                    proof {
+                        let k = stream.len() - cell_reader.remaining().len();
+                        if k < stream.len() {
+                            lemma_take_step(stream, k, 0);
+                            assert(cell_reader.remaining()[0] == stream[k]);
+                            assert(cell_reader.remaining().skip(1) =~= stream.skip(k + 1));
+                        }
+                    }
+//@@ loop 1
+                    invariant
+                        cell_reader.remaining().len() <= stream.len(),
+                        cell_reader.remaining() == stream.skip(stream.len() - cell_reader.remaining().len()),
+                        //# C08,C03.lazy_filter_kept_so_far
+                        cells@ == keep(stream.take(stream.len() - cell_reader.remaining().len()), header_row_idx as int),
+                        old(self).sheet_src(name@) == (LazySrc::Stream { cells: stream, end: cell_reader.terminal(), dims: cell_reader.dims() }),
+                        dflt::<DataRef<'a>>() == DataRef::<'a>::Empty,
+                    ensures
+                        cell_reader.remaining().len() == 0 && cell_reader.terminal() is None,
+                    decreases cell_reader.remaining().len(),
+//@@ before /match cell_reader/#1of2
+                    proof {
+                        let k = stream.len() - cell_reader.remaining().len();
+                        if k < stream.len() {
+                            lemma_take_step(stream, k, header_row_idx as int);
+                            assert(cell_reader.remaining()[0] == stream[k]);
+                            assert(cell_reader.remaining().skip(1) =~= stream.skip(k + 1));
+                        }
+                    }
+//@@ closure 0
+    -> (res: bool) ensures res == (c.pos.0 != header_row_idx)
+//@@ before /if cells\.first\(\)/
+                let ghost kept = cells@;
+                proof { assert(stream.take(stream.len() as int) =~= stream); }
+//@@ before /Ok\(Range::from_sparse/
+        proof {
+            assert(stream.take(stream.len() as int) =~= stream);
+            match header_row {
+                HeaderRow::FirstNonEmptyRow => {}
+                HeaderRow::Row(n) => {
+                    let ks = keep(stream, n as int);
+                    if ks.len() > 0 && ks[0].pos.0 != n {
+                        assert(cells@ =~= seq![Cell { pos: (n, ks[0].pos.1), val: DataRef::<'a>::Empty }] + ks);
+                    }
+                }
+            }
+            assert(cells@ == lazy_cells(header_row, stream));
+            if rows_mono(stream) { lemma_lazy_cells_sorted(header_row, stream); }
+        }
+//@@ end
+//@@ endimpl
+
+// R-mono, as for Xlsx
+impl Xlsb<VerifRs> {
+//@@ fn src/xlsb/mod.rs "Reader<RS> for Xlsb<RS>::worksheet_range" props=C07 entry ret=r
+//@@ sig
+    ensures
+        //# C07.range_is_converted_ref
+        exists|rr: Result<Range<DataRef<'static>>, XlsbError>|
+            #[trigger] lazy_result_ok(old(self).sheet_src(name@), false, old(self).hr(), rr) && converted_result(r, rr),
+//@@ closure 0
+    -> (res: Data) ensures res == to_data(v)
+//@@ before /Ok\(Range \{/
+        proof {
+            let iv = data_seq(&inner);   // (also tells rustc the type of `inner`, which the source leaves to the struct literal below)
+            assert(iv.len() == rge.inner@.len());
+            assert(forall|i: int| 0 <= i < iv.len() ==> iv[i] == to_data(rge.inner@[i]));
+            let d = Range { start: rge.start, end: rge.end, inner: inner };
+            assert(converted(d, rge));
+            let rr: Result<Range<DataRef<'static>>, XlsbError> = Ok(rge);
+            assert(lazy_result_ok(old(self).sheet_src(name@), false, old(self).hr(), rr));
+            assert(converted_result(Ok::<Range<Data>, XlsbError>(d), rr));
+        }
+//@@ end
+}
 
 
 // =====================================================================================================================
@@ -942,4 +1145,6 @@ impl<RS> Ods<RS> {
 //@@ endimpl
 
 } // verus!
+impl Read for VerifRs { fn read(&mut self, _buf: &mut [u8]) -> std::io::Result<usize> { unimplemented!() } }
+impl Seek for VerifRs { fn seek(&mut self, _pos: std::io::SeekFrom) -> std::io::Result<u64> { unimplemented!() } }
 fn main() {}
